@@ -90,11 +90,19 @@ def run_eval(c):
     f = c["fsc"]
     pi, om, ini = nd(f["pi"]), nd(f["om"]), nd(f["init"])
     try:
-        r = stochastic_fsc_policy_evaluation_exact(pomdp, torch.tensor(pi), torch.tensor(om),
-                                                   fsc_initial_state=torch.tensor(ini))
-        out["eval"] = {"V": fjn(r.state_controller_value.numpy()),
-                       "state_value": fjn(r.state_value.numpy()),
-                       "expected_value": fj(r.expected_value.item())}
+        # the evaluator's accepted input forms: node transitions 4-d p(n'|n,a,o) or 3-d p(n'|n,o);
+        # with or without fsc_initial_state; dtype
+        dt = getattr(torch, c.get("eval_dtype", "float64"))
+        om_in = nd(f["om3"]) if c.get("om_form") == "3d" else om
+        tpi, tom, tini = torch.tensor(pi, dtype=dt), torch.tensor(om_in, dtype=dt), torch.tensor(ini, dtype=dt)
+        r = stochastic_fsc_policy_evaluation_exact(pomdp, tpi, tom, fsc_initial_state=tini, dtype=dt)
+        r0 = stochastic_fsc_policy_evaluation_exact(pomdp, tpi, tom, dtype=dt)
+        out["eval"] = {"V": fjn(r.state_controller_value.double().numpy()),
+                       "state_value": fjn(r.state_value.double().numpy()),
+                       "expected_value": fj(r.expected_value.item()),
+                       "V_noinit": fjn(r0.state_controller_value.double().numpy()),
+                       "noinit_has_value": hasattr(r0, "expected_value") or ("expected_value" in getattr(r0, "__dict__", {})),
+                       "om_shape": list(tom.shape)}
     except BaseException as e:
         if isinstance(e, (KeyboardInterrupt, SystemExit)):
             raise
